@@ -941,6 +941,13 @@ fn needs_yaml_quoting(s: &str) -> bool {
         return true;
     }
 
+    // Whatever the loader itself would not read back as a string: the
+    // core-schema spellings the checks above miss (`0x1F`, `0o17`, `.5`,
+    // `+.inf`).
+    if !matches!(crate::yaml::resolve_plain(s), crate::yaml::ResolvedScalar::Str) {
+        return true;
+    }
+
     // Check for characters that need escaping
     for b in bytes {
         if *b < 0x20 || *b == b':' || *b == b'#' {
